@@ -318,6 +318,18 @@ fn malformed() -> Vec<Lit> {
         mk("0x_1", "underscore", Radix::Hex),
         mk("1-2", "inner-sign", Radix::Dec),
         mk("0x1-2", "inner-sign", Radix::Hex),
+        // character literals
+        mk("'\\u12G4'", "char-bad-hex-digit", Radix::Char),
+        mk("'\\uzzzz'", "char-bad-hex-digit", Radix::Char),
+        mk("'\\u-041'", "char-bad-hex-digit", Radix::Char),
+        mk("'\\u 041'", "char-bad-hex-digit", Radix::Char),
+        mk("'\\u12'", "char-short-escape", Radix::Char),
+        mk("'\\u'", "char-short-escape", Radix::Char),
+        mk("'\\x41'", "char-unknown-escape", Radix::Char),
+        mk("'\\q'", "char-unknown-escape", Radix::Char),
+        mk("'ab'", "char-two-characters", Radix::Char),
+        mk("''", "char-empty", Radix::Char),
+        mk("'\\uD800'", "char-surrogate", Radix::Char),
     ]
 }
 
@@ -385,7 +397,7 @@ pub fn run(ctx: &Ctx) -> i32 {
                     judge(&l, cx, &mut acc);
                 }
             }
-            for (t, v) in [("'\\n'", 10), ("'\\t'", 9), ("'\\0'", 0), ("'\\\\'", 92), ("'\\''", 39), ("'\u{e9}'", 233), ("'\u{20ac}'", 0x20ac)] {
+            for (t, v) in [("'\\n'", 10), ("'\\t'", 9), ("'\\0'", 0), ("'\\\\'", 92), ("'\\''", 39), ("'\u{e9}'", 233), ("'\u{20ac}'", 0x20ac), ("'\\u0041'", 0x41), ("'\\u00e9'", 0xe9), ("'\\u20AC'", 0x20ac), ("'\\u0000'", 0)] {
                 let l = Lit { text: t.to_string(), value: Some(v), radix: Radix::Char, negative: false, malformed_kind: "" };
                 for cx in [Context::Li, Context::Byte] {
                     judge(&l, cx, &mut acc);
